@@ -3219,6 +3219,7 @@ def r11_fresh_temp(ctx: RuleCtx) -> None:
     mod = ctx.repo.module(NINJABACKEND)
     ps = PathSym(ctx.repo)
     n_pub = n_keep = 0
+    jobs: T.List[T.Tuple[FuncRef, T.Any, Terms, ast.Call, Terms]] = []
     for qn, fn in mod.funcs().items():
         ref = FuncRef(mod, qn)
         for s in _sinks(fn, set()):
@@ -3229,11 +3230,35 @@ def r11_fresh_temp(ctx: RuleCtx) -> None:
             if len(tmp) != 1 or len(dst) != 1 or tmp == dst:
                 raise Undecided(f'{qn}: `{short(s.call)}`: source/destination are not single distinct names: {P.show_all(tmp)} -> {P.show_all(dst)}')
             events, unread = _temp_events(ps, ref, tmp, s.call)
+            if not events and not unread and 'contextmanager' in decorator_names_of(fn):
+                # a context-manager helper that yields the temporary's name and publishes on exit: the file is written by
+                # the with-blocks that receive the name - judge each of them (the publication is the end of the block)
+                ys = [y for y in walk_no_nested(fn) if isinstance(y, ast.Yield) and y.value is not None]
+                if len(ys) == 1 and ps.resolve(ref, ys[0].value) == tmp:
+                    for qn2, fn2 in mod.funcs().items():
+                        ref2 = FuncRef(mod, qn2)
+                        for w in walk_no_nested(fn2):
+                            if not isinstance(w, (ast.With, ast.AsyncWith)):
+                                continue
+                            for it in w.items:
+                                if isinstance(it.context_expr, ast.Call) and isinstance(it.optional_vars, ast.Name):
+                                    r2 = ps.resolve_callee(ref2, it.context_expr)
+                                    if r2 is not None and r2.mod.rel == mod.rel and r2.qn == qn:
+                                        jobs.append((ref2, fn2, ps.resolve(ref2, it.optional_vars), it.context_expr, dst))
+                continue
             if not events and not unread:
                 continue            # the renamed file is not written here: not a temp + replace publication
+            jobs.append((ref, fn, tmp, s.call, dst))
+    for ref, fn, tmp, pub, dst in jobs:
+        qn = ref.qn
+        if True:
+            s_call = pub
+            events, unread = _temp_events(ps, ref, tmp, pub)
+            if not events and not unread:
+                continue
             n_pub += 1
             if unread:
-                raise Undecided(f'{qn}: the temporary {P.show_all(tmp)} of `{short(s.call)}` is handed to {unread}; cannot tell whether a leftover is kept')
+                raise Undecided(f'{qn}: the temporary {P.show_all(tmp)} of `{short(s_call)}` is handed to {unread}; cannot tell whether a leftover is kept')
             cfg = CFG(fn)
             fresh = [n for c, k, d in events if k in ('fresh', 'remove') for n in cfg.node_containing(c)]
 
@@ -3253,12 +3278,12 @@ def r11_fresh_temp(ctx: RuleCtx) -> None:
                     raise Undecided(f'{qn}: `{short(c)}` is not in the CFG')
                 ok = not any(n.id in reach for n in at)
                 ctx.require(ok, f'{qn}: {d} continues the temporary {P.show_all(tmp)} only after it was created afresh on every path '
-                            f'({"; ".join(d2 for c2, k2, d2 in events if k2 != "keep")}) - a leftover of a killed run never reaches `{short(s.call)}`',
+                            f'({"; ".join(d2 for c2, k2, d2 in events if k2 != "keep")}) - a leftover of a killed run never reaches `{short(s_call)}`',
                             mod, qn, c, f'{d} opens the temporary {P.show_all(tmp)} keeping its contents, and no truncating open / removal of it comes first on every path: '
-                            f'a {P.show_all(tmp)} left behind by a run killed before `{short(s.call)}` is extended (or makes an exclusive create fail) and the result is '
+                            f'a {P.show_all(tmp)} left behind by a run killed before `{short(s_call)}` is extended (or makes an exclusive create fail) and the result is '
                             f'published as {P.show_all(dst)} - the regenerated file holds the old and the new text and the follow-up `meson setup --reconfigure` cannot repair it', c)
             if not any(k == 'keep' for c, k, d in events):
-                ctx.ok(f'{qn}: every open of the temporary {P.show_all(tmp)} of `{short(s.call)}` truncates it')
+                ctx.ok(f'{qn}: every open of the temporary {P.show_all(tmp)} of `{short(s_call)}` truncates it')
     if n_pub == 0:
         raise Undecided(f'{NINJABACKEND}: no temp + os.replace publication found (build.ninja is generated some other way)')
     ctx.floor('temp + replace publications in the ninja backend', n_pub, 1)
